@@ -1,6 +1,7 @@
 import Mhd.Model.PoolOps
 import Mhd.Model.PoolRzOps
 import Mhd.Model.NoSpaceConn
+import Mhd.Model.ConnReadCfg
 import Mhd.Model.Framing
 import Driver.Common
 open Mhd.Pool Driver
@@ -180,26 +181,10 @@ def cookieName : List UInt8 := [67, 111, 111, 107, 105, 101]
 
 /-- the decisions of `parse_connection_headers` (C03: `decideBody`) and `keepalive_possible`, the take
     pattern of the scripted access handler (as in engine `mem`) -/
-def mkCfg (lvl : Int) (pat : List Nat) : Mhd.ConnRead.Cfg :=
-  { frame := fun buf rq =>
-      let fs := fieldsOf buf rq.elems
-      if (Mhd.Framing.lookup fs cookieName).isSome then .stop
-      else match Mhd.Framing.decideBody lvl (http11Of buf rq.version) fs with
-        | .none => .none
-        | .len n => .len n
-        | .chunked _ => .chunked
-        | .reject st => .reject st,
-    keepAlive := fun buf rq =>
-      let fs := fieldsOf buf rq.elems
-      let h11 := http11Of buf rq.version
-      let mustClose := match Mhd.Framing.decideBody lvl h11 fs with
-        | .chunked mc => mc
-        | _ => false
-      if mustClose then false
-      else if Mhd.Framing.lookupToken fs Mhd.Gen.Framing.hdrConnection Mhd.Gen.Framing.tokClose then false
-      else if !h11 then Mhd.Framing.lookupToken fs Mhd.Gen.Framing.hdrConnection Mhd.Gen.Framing.tokKeepAlive
-      else true,
-    take := fun k _ => if pat.isEmpty then 1000000000 else pat.getD (k % pat.length) 0 }
+def mkCfg (lvl : Int) (sc : List (Option Nat) × Mhd.ConnRead.HRes × Bool) : Mhd.ConnRead.Cfg :=
+  -- the standard instantiation shared with engine `mem` (C01): scripted handler = take pattern (`n` = MHD_NO),
+  -- what the first / final call does
+  Mhd.ConnRead.mkCfg lvl sc.1 sc.2.1 sc.2.2
 
 /-- state class + the refusal: `ph=err code=<status>` (0 = closed without a reply; `ns?` must never
     appear: the run is in `.error .noSpace` but no refusal was recorded) -/
@@ -212,6 +197,7 @@ def showTR (t : Mhd.ArenaBound.TR) : String :=
   | .headers _ _ => s!"ph=hdrs {pos}"
   | .headersDone _ _ => s!"ph=done {pos}"
   | .body _ => s!"ph=body {pos}"
+  | .cont100 _ => s!"ph=c100 {pos}"
   | .footers _ _ => s!"ph=foot {pos}"
   | .reqDone _ _ _ => s!"ph=full {pos}"
   | .error (.reply code) => s!"ph=err code={code} why=reply"
@@ -224,17 +210,28 @@ def showTR (t : Mhd.ArenaBound.TR) : String :=
   | .fault f => s!"ph=fault {repr f}"
   | .refused n => s!"ph=refused {n}"
 
-def parsePat (s : String) : Option (List Nat) :=
-  (s.splitOn ",").mapM (·.toNat?)
+def parsePat (s : String) : Option (List (Option Nat) × Mhd.ConnRead.HRes × Bool) :=
+  if s == "-" then some ([], .cont, true) else
+  ((s.splitOn ",").mapM (fun t => if t == "n" then some none else t.toNat?.map some)).map (fun l => (l, .cont, true))
+
+def parseBeh (s : String) : Option (Mhd.ConnRead.HRes × Bool) :=
+  match s.toList with
+  | [f, l] =>
+    let fr : Option Mhd.ConnRead.HRes := if f == 'c' then some .cont else if f == 'r' then some .reply else if f == 'n' then some .no else none
+    let lr : Option Bool := if l == 'r' then some true else if l == 'n' then some false else none
+    match fr, lr with
+    | some a, some b => some (a, b)
+    | _, _ => none
+  | _ => none
 
 structure DS where
   old : St
   rz : Option RzS
   tr : Mhd.ArenaBound.TR
-  pat : List Nat
+  pat : List (Option Nat) × Mhd.ConnRead.HRes × Bool
 
 def stepCR (d : DS) (ws : List String) : Option (DS × List String) :=
-  let ini (ps inc lvl : String) (pt : List Nat) :=
+  let ini (ps inc lvl : String) (pt : List (Option Nat) × Mhd.ConnRead.HRes × Bool) :=
     match ps.toNat?, inc.toNat?, lvl.toInt? with
     | some p, some i, some l =>
       if 64 ≤ p ∧ p < 2 ^ 40 ∧ i < 2 ^ 40 ∧ -8 ≤ l ∧ l ≤ 8 then
@@ -243,7 +240,11 @@ def stepCR (d : DS) (ws : List String) : Option (DS × List String) :=
       else some (d, ["bad-op"])
     | _, _, _ => some (d, ["bad-op"])
   match ws with
-  | ["crinit", ps, inc, lvl] => ini ps inc lvl []
+  | ["crinit", ps, inc, lvl] => ini ps inc lvl ([], .cont, true)
+  | ["crinit", ps, inc, lvl, pt, beh] =>
+    match parsePat pt, parseBeh beh with
+    | some l, some (f, fin) => ini ps inc lvl (l.1, f, fin)
+    | _, _ => some (d, ["bad-op"])
   | ["crinit", ps, inc, lvl, pt] =>
     match parsePat pt with
     | some l => ini ps inc lvl l
@@ -276,4 +277,4 @@ def stepLine (d : DS) (ws : List String) : DS × List String :=
       | some z => let (z', out) := stepLineRz z ws; ({ d with rz := some z' }, out)
 
 def main : IO Unit :=
-  runEngine ({ old := St.init 0, rz := none, tr := Mhd.ArenaBound.initT 64 64 16 0, pat := [] } : DS) stepLine
+  runEngine ({ old := St.init 0, rz := none, tr := Mhd.ArenaBound.initT 64 64 16 0, pat := ([], .cont, true) } : DS) stepLine
